@@ -1064,6 +1064,8 @@ impl Gen {
                         // every parsed mutant is used with the users' keys: the cost of one call
                         // grows with the size of those keys, the cap shrinks accordingly
                         let cap = (if thorough { 40_000 } else { 3_000 }) * 8 / self.key_weight(w).max(8);
+                        // parsing a large object is itself expensive (ML-KEM keys are decoded)
+                        let cap = cap * 2_000 / len.max(2_000);
                         let stride = (len * 4).div_ceil(cap.max(50)).max(1);
                         evs.push(Ev::SweepHostile { target, parser, stride });
                     }
